@@ -256,3 +256,10 @@ package annotation
 //@   ghost blkIters int = 0
 //@   ghostset at "bcoord, err := izyxStr.ToChunkPoint3d()": blkIters = blkIters + 1
 //@   invariant loop 1: merges == old(merges) + blkIters
+
+// addTagDelta (C20, C13): computing the per-tag additions and erasures of a block's posted elements
+// never panics, whatever mix of tags the posted and the stored elements carry.
+//@ func addTagDelta
+//@   prop C20 C13
+//@   requires tagDelta != nil
+//@   modifies *
